@@ -94,8 +94,51 @@ impl TableActor {
     }
 }
 
+/// Emits the commands in order through every public way of filling an `Out`: directly, through
+/// `Out::append` of a second buffer onto a non-empty one (the split point depends only on the
+/// commands, so the real actor and replays agree) and `Out::broadcast` for runs of equal sends.
 pub fn emit<A: Actor<Msg = Msg, Timer = Timer, Random = Rand>>(cmds: Vec<RCmd>, o: &mut Out<A>) {
-    for c in cmds {
+    let h = crate::ctx::hash_of(&cmds);
+    if cmds.len() >= 2 && h % 3 == 0 {
+        // a short head emitted directly, a longer tail appended
+        let k = 1 + (h / 3) as usize % (cmds.len() - 1).min(2);
+        let tail = cmds[k..].to_vec();
+        emit_plain(cmds[..k].to_vec(), o);
+        let mut rest: Out<A> = Out::new();
+        emit_plain(tail, &mut rest);
+        o.append(&mut rest);
+        return;
+    }
+    emit_plain(cmds, o);
+}
+
+fn emit_plain<A: Actor<Msg = Msg, Timer = Timer, Random = Rand>>(cmds: Vec<RCmd>, o: &mut Out<A>) {
+    let mut i = 0;
+    while i < cmds.len() {
+        // a run of sends of one message to different recipients -> one broadcast
+        if let RCmd::Send(_, m) = &cmds[i] {
+            let mut j = i;
+            let mut ids: Vec<Id> = Vec::new();
+            while let Some(RCmd::Send(d, m2)) = cmds.get(j) {
+                if m2 != m {
+                    break;
+                }
+                ids.push(Id::from(*d));
+                j += 1;
+            }
+            if ids.len() >= 2 && crate::ctx::hash_of(&(&cmds, i)) % 2 == 0 {
+                o.broadcast(ids.iter(), m);
+                i = j;
+                continue;
+            }
+        }
+        emit_one(cmds[i].clone(), o);
+        i += 1;
+    }
+}
+
+fn emit_one<A: Actor<Msg = Msg, Timer = Timer, Random = Rand>>(c: RCmd, o: &mut Out<A>) {
+    for c in [c] {
         match c {
             RCmd::Send(d, m) => o.send(Id::from(d), m),
             RCmd::SetTimer(t) => o.set_timer(t, Duration::from_millis(0)..Duration::from_millis(0)),
